@@ -1,6 +1,6 @@
 """Sidecar contracts for the functions of /repo/src/fast_ticc (keyed by qualified name)."""
 import importlib
-MODULES = ['c_unique_values', 'c_matrix_compression', 'c_data_preparation', 'c_label_assignment', 'c_solver', 'c_model_state', 'c_cluster_maintenance', 'c_graphical_lasso', 'c_likelihood', 'c_cluster_metrics', 'c_main_loop', 'c_front_end', 'c_native_extra', 'c_structural', 'c_bounded']
+MODULES = ['c_unique_values', 'c_matrix_compression', 'c_data_preparation', 'c_label_assignment', 'c_solver', 'c_model_state', 'c_cluster_maintenance', 'c_graphical_lasso', 'c_likelihood', 'c_cluster_metrics', 'c_main_loop', 'c_front_end', 'c_native_extra', 'c_structural', 'c_bounded', 'c_fp']
 def load_all():
     for m in MODULES:
         importlib.import_module('contracts.' + m)
